@@ -517,6 +517,14 @@ def check_pa_lookup(m, f, rule):
         calls, cleaned, stale = ps.auto
         rv = ps.lookup(_k(strip_bitcasts(f, ret.o[0]))) if ret.o else None
         g = f.get(rv) if isinstance(rv, str) else None
+        # the lookup may hand out the address of a member of the selected bucket (its chain head) instead of the bucket
+        for _ in range(4):
+            if g is None or g.op != 'getelementptr' or not g.x.get('path') or 'idx' in g.x['path'][0]:
+                break
+            if any('idx' in st for st in g.x['path']):
+                break
+            rv = ps.lookup(_k(strip_bitcasts(f, g.o[0])))
+            g = f.get(rv) if isinstance(rv, str) else None
         idx = None
         if g is not None and g.op == 'getelementptr' and g.x.get('path') and 'idx' in g.x['path'][0]:
             idx = g.x['path'][0]['idx']
